@@ -327,6 +327,28 @@ def run(ctx: Ctx) -> None:
                     stmt_key(r), what="authorisation is decided on the importing module instead of the defining one")
     rep.floor("C14.R6", n6, 1)
 
+    # ---- R9: acceptance is decided on the final path, not on a package passed through on the way ----------------------
+    rep.rule("C14.R9", "while walking a dotted name the resolver never answers 'external' because a MODULE met on the way is not accepted: an accepted "
+                       "module may sit below non-accepted parents (only `proj.core.etl` accepted, reached as proj.core.etl.step())")
+    rec9 = prog.funcs.get("dds._retrieve_objects.ObjectRetrieval._retrieve_object_rec")
+    if rec9 is None:
+        raise AnchorError("dds._retrieve_objects.ObjectRetrieval._retrieve_object_rec not found")
+    cfg9 = cfg_of(rec9)
+    mod_T = [b for b in cfg9.nodes if b.kind == "branch" and b.label == "T" and isinstance(b.ast, ast.Call) and unparse(b.ast.func) == "isinstance"
+             and len(b.ast.args) == 2 and unparse(b.ast.args[1]).split(".")[-1] == "ModuleType"]
+    n9 = 0
+    for r in [x for x in rec9.own_nodes() if isinstance(x, ast.Return) and isinstance(x.value, ast.Call) and unparse(x.value.func).endswith("ExternalObject")]:
+        n9 += 1
+        desc = "`return ExternalObject(..)` is not decided on an intermediate module of the dotted name"
+        under = mod_T and dominated(ctx, rec9, r, mod_T) is None
+        if under:
+            rep.bad("C14.R9", rec9.qname, desc, rec9.loc(r), [f"{rec9.loc(r)}: `{unparse(r, 70)}` is reached only when the object found at this level is a module (more of the name remains)",
+                    "with only `proj.core.etl` accepted, `import proj.core.etl; proj.core.etl.step()` is dropped at `proj`: step is never introspected and editing it leaves "
+                    "the caller's signature unchanged (a stale blob is served)"], stmt_key(r), what="a non-accepted parent package hides the accepted modules below it")
+        else:
+            rep.ok("C14.R9", rec9.qname, desc, rec9.loc(r))
+    rep.floor("C14.R9", n9, 3)
+
     # ---- R7 / R8: the boundary is decided from the accepted set and the program alone -----------------------------
     from .c02 import process_reads, RESOLVER_MODULES
     from .c03 import global_cache_rule
